@@ -47,11 +47,14 @@ FeatDist2(rc, tc, bins) == Div(Hist(rc, bins, MinOf(rc, tc), MaxOf(rc, tc)), His
 FeatDists(ref, q, bins) == [f \in 1..hcfg.F |-> FeatDist2(Col(ref, f), Col(q, f), bins)]
 Avg(fd) == NMul(NDiv(1, hcfg.F), NSumSeq(fd))
 
+(* every index that may be "the" largest entry: none is definitely larger (entries within the comparison tolerance of each other tie - which
+   of them a floating-point argmax lands on is a matter of the last bit) *)
+ArgMaxSet(v) == { i \in 1..Len(v) : \A j \in 1..Len(v) : NCmp(v[j], v[i]) \in {-1, 0, 2} }
 ArgMax(v) == CHOOSE i \in 1..Len(v) : (\A j \in 1..Len(v) : NCmp(v[j], v[i]) \in {-1, 0, 2}) /\ (\A j \in 1..(i - 1) : NCmp(v[j], v[i]) = -1)
 
 Fresh == [total |-> 0, since |-> 0, st |-> "None", lam |-> 0, ref |-> <<>>, prev |-> "None", prevF |-> <<>>,
           eps |-> <<>>, toteps |-> "0.0", dist |-> "None", distF |-> <<>>, ceps |-> "None", beta |-> "None",
-          info |-> [dists |-> <<>>, argmax |-> 0]]
+          info |-> [dists |-> <<>>, argmax |-> 0, cands |-> {}]]
 
 (* one batch against the current reference; e0 as above.  Returns the SET of possible next states
    (more than one only when the comparison epsilon > beta is ambiguous). *)
@@ -68,7 +71,8 @@ Drifted(s1, q, fd, dist, eps1, tot1, ce, beta) ==
   [s1 EXCEPT !.st = "drift", !.ref = q, !.lam = s1.total, !.dist = dist, !.distF = fd,
              !.eps = eps1, !.toteps = tot1, !.ceps = ce, !.beta = beta,
              !.info = IF hcfg.F > 1
-                        THEN [dists |-> fd, argmax |-> ArgMax([f \in 1..hcfg.F |-> NSub(fd[f], s1.prevF[f])])]
+                        THEN [dists |-> fd, argmax |-> ArgMax([f \in 1..hcfg.F |-> NSub(fd[f], s1.prevF[f])]),
+                              cands |-> ArgMaxSet([f \in 1..hcfg.F |-> NSub(fd[f], s1.prevF[f])])]
                         ELSE s1.info]
 Decide(s1, q, fd, dist, eps1, tot1, ce, beta) ==
   { IF g THEN Drifted(s1, q, fd, dist, eps1, tot1, ce, beta) ELSE NoDrift(s1, q, fd, dist, eps1, tot1, ce, beta)
